@@ -805,6 +805,9 @@ def scan_recorded_index(body, vec_expr, idx_expr, need_rev):
                         keys.append((bb2, strip_sites(a[1])))
         if not keys:
             return False, "nothing is recorded into the edit list"
+        if all(_enumerate_position(body, k, vroot) for bb2, k in keys):
+            return True, "index is the position enumerate() reported for an element of the same vector, applied %s" % (
+                "in descending order" if need_rev else "without length change")
         cvars = {k[1] for bb2, k in keys if k[0] == "var"}
         if len(cvars) != 1 or any(k[0] != "var" for bb2, k in keys):
             return False, "recorded index is not a single counter variable"
@@ -856,6 +859,27 @@ def scan_recorded_index(body, vec_expr, idx_expr, need_rev):
             return True, "index recorded by the scan over the same vector (counter `%s`), applied %s" % (
                 body.names.get(cv, "_%d" % cv), "in descending order" if need_rev else "without length change")
     return False, "index does not come from an edit list filled by a scan of the same vector"
+
+
+def _enumerate_position(body, k, vroot):
+    """k is `(it.next() as Some).0.0` of an Enumerate over the vector `vroot`: the position of the element in hand"""
+    k = body.expand_vars(strip_sites(k))
+    if not (k[0] == "field" and k[1] == 0 and k[2][0] == "field" and k[2][1] == 0):
+        return False
+    d = k[2][2]
+    if not (d[0] == "downcast" and d[1] == "Some"):
+        return False
+    c = d[2]
+    while c[0] == "field" and c[1] == 0:
+        c = c[2]
+    if not (c[0] == "call" and last_seg(c[1]) == "next" and "Enumerate" in c[1] and c[2]):
+        return False
+    it = c[2][0]
+    if flow.backward(body, it, lambda z: z[0] == "call" and last_seg(z[1]) in (
+            "skip", "rev", "step_by", "filter", "skip_while", "zip", "chain", "filter_map", "flat_map", "peekable"),
+            through_containers=False) is not None:
+        return False                # positions of a shifted / thinned view are not positions in the vector
+    return flow.backward(body, it, lambda z: z[0] in ("var", "param") and z[1] == vroot, through_containers=False) is not None
 
 
 def command_tokens_nonempty(crate):
@@ -946,6 +970,20 @@ def loop_rule(ctx, crate, scope):
             desc = loop_desc(body, h, blocks, exits)
             ent = LOOP_TABLE.get((body.path, desc))
             if ent is None:
+                # the function's loop was audited, but its exit tests are spelled differently now (a flag removed, a
+                # condition inverted): the audited reason still names the variant; re-check mechanically that no cycle
+                # leaves the inputs of the (new) exit conditions untouched
+                same_fn = [(d2, e2) for (f2, d2), e2 in LOOP_TABLE.items() if f2 == body.path and e2[1] == "stutter"]
+                n_loops_fn = sum(1 for h2, bl2 in body.loops().items() if not any(
+                    atom[0] == "discr" and val == "None" and atom[1][0] == "call" and last_seg(atom[1][1]) in FINITE_ITER
+                    for a2 in bl2 for tgt, atom, val in body.switch_edges(a2) if tgt not in bl2))
+                if same_fn and n_loops_fn <= len(same_fn):
+                    ok, detail, np = stutter_free(body, h, blocks, exits)
+                    ctx.paths_enumerated += np
+                    if ok:
+                        ctx.ob("R05-2", body.path, "loop [%s]: exit tests differ from the audited form, progress re-checked "
+                                                   "(%s)" % (desc, same_fn[0][1][0]), True, where=body.loc(h), crate=crate.kind)
+                        continue
                 ctx.ob("R05-2", body.path, "non-iterator loop [%s] has a listed progress argument" % desc, False,
                        key="R05-2|%s|loop|%s" % (body.path, desc), where=body.loc(h), crate=crate.kind,
                        detail="loop is neither iterator-driven nor in the variant table")
